@@ -10,13 +10,19 @@ Section Refuted.
 Variable snell_internal : beam -> R -> crystal_setup -> R.
 Variable compute_sign : beam -> beam -> crystal_setup -> sign.
 
+(* the reference behaviour shows the requested period; the code leaves the base untouched *)
 Lemma C18_poling_period_unpoled_refuted :
   exists f, get_setter snell_internal compute_sign "periodic_poling.poling_period_um" = Some f /\
-    forall s v, s_pp s = Off -> f s v = s /\ config_poling (f s v) = None.
+    forall s v, s_pp s = Off -> v <> 0 ->
+      f s v = s /\ config_poling (f s v) = None /\
+      config_poling (ideal_set snell_internal compute_sign SPolingPeriod (si_of UUm v) s) = Some (round4 (Rabs v), CfgOff) /\
+      f s v <> ideal_set snell_internal compute_sign SPolingPeriod (si_of UUm v) s.
 Proof.
-  assert (Hin : In ("periodic_poling.poling_period_um"%string, (SPolingPeriod, UUm)) spec_table) by (cbn; tauto).
-  destruct (setters_match snell_internal compute_sign _ _ _ Hin ltac:(discriminate)) as [f [Hf E]].
-  exists f. split; [exact Hf|]. intros s v Hoff. rewrite E, (poling_off_noop _ _ _ _ Hoff).
-  split; [reflexivity|]. unfold config_poling. now rewrite Hoff.
+  eexists. split; [reflexivity|]. intros s v Hoff Hv.
+  assert (E : set_periodic_poling_poling_period_um compute_sign s v = s).
+  { destruct s as [sgn idl pm cr pp pw bw th swp iwp df]. cbn [s_pp] in Hoff. subst pp. reflexivity. }
+  rewrite E. pose proof (poling_value_unpoled snell_internal compute_sign s v Hoff Hv) as Hid.
+  split; [reflexivity|]. split; [unfold config_poling; now rewrite Hoff|]. split; [exact Hid|].
+  intros Heq. rewrite <- Heq in Hid. unfold config_poling in Hid. rewrite Hoff in Hid. discriminate.
 Qed.
 End Refuted.
